@@ -47,6 +47,8 @@ class CustomScalar:
         if isinstance(ast, BooleanValueNode): return ast.value
         return UNDEFINED_VALUE
 
+_resolver_kw = {}      # (schema name, coordinate) -> concurrency options passed to @Resolver
+
 class Built:
     def __init__(self):
         self.engine = None; self.calls = []; self.schema_name = None; self.model = None
@@ -136,6 +138,7 @@ async def build_engine(model, renv, cfg=None, sdl=None, engine_kwargs=None, dire
             for key in ("parent_concurrently", "list_concurrently"):
                 ch = mr.choice([None, True, False])
                 if ch is not None: kw[key] = ch
+        _resolver_kw[(b.schema_name, coord)] = {k_: v_ for k_, v_ in kw.items() if k_ != "type_resolver"}
         Resolver(coord, schema_name=b.schema_name, **kw)(make_resolver(b, coord, spec))
     for tn, spec in (renv.get("typeResolvers") or {}).items():
         TypeResolver(tn, schema_name=b.schema_name)(make_type_resolver(b, spec, "type:" + tn))
@@ -152,16 +155,26 @@ async def build_engine(model, renv, cfg=None, sdl=None, engine_kwargs=None, dire
     # read the effective concurrency flags back from the baked schema into the model
     import copy
     m = copy.deepcopy(model)
-    schema = b.engine._schema
+    schema = getattr(b.engine, "_schema", None)
     for t in m["types"]:
         if t["kind"] in ("object", "interface"):
             for f in t["fields"]:
+                coord = f"{t['name']}.{f['name']}"
                 try:
-                    fd = schema.get_field_by_name(f"{t['name']}.{f['name']}")
+                    fd = schema.get_field_by_name(coord)
                     f["parentConc"] = bool(fd.parent_concurrently)
                     f["listConc"] = bool(fd.list_concurrently)
                 except Exception:
-                    pass
+                    # the baked schema cannot be read this way (an internal name changed): derive the effective flags from what
+                    # was asked for - a @Resolver option (parent: default True; list: default None = the engine's), else the engine's
+                    kw_ = _resolver_kw.get((b.schema_name, coord))
+                    if kw_ is not None:
+                        f["parentConc"] = bool(kw_.get("parent_concurrently", True))
+                        lc = kw_.get("list_concurrently")
+                        f["listConc"] = bool(kwargs.get("coerce_list_concurrently", True) if lc is None else lc)
+                    else:
+                        f["parentConc"] = bool(kwargs.get("coerce_parent_concurrently", True))
+                        f["listConc"] = bool(kwargs.get("coerce_list_concurrently", True))
     b.model = m
     return b
 
